@@ -24,6 +24,7 @@ PANIC_APIS = [
     (r"^std::ops::(Add|Sub|Mul|Div|Rem|Neg|AddAssign|SubAssign)::", "overloaded arithmetic"),
     (r"^chrono::.*TimeDelta.*::(days|hours|minutes|seconds|weeks|milliseconds)$", "chrono::Duration constructor"),
     (r"^chrono::.*::(timestamp|timestamp_millis|ymd|and_hms|from_utc|with_ymd_and_hms)$", "chrono panicking constructor"),
+    (r"^chrono::DateTime::<Tz>::to_rfc2822$|^chrono::.*::to_rfc2822$", "chrono to_rfc2822 (panics for years outside 0..=9999)"),
     (r"^std::iter::Iterator::step_by$", "step_by"),
     (r"^std::slice::<impl \[T\]>::(chunks|windows|chunks_exact|rchunks|swap|rotate_left|rotate_right|copy_within)$", "slice API"),
     (r"^std::char::from_digit$|^core::char::methods::<impl char>::(from_digit|to_digit)$", "char digit radix"),
